@@ -10,9 +10,10 @@ from vlib.e2e.env import ProxyEnv
 from vlib.e2e_runner import Result
 
 HOSTS = ["127.0.0.1", "localhost"]          # both resolve to the origin stub (hosts_file); different hosts for the cache
-BODY_METHODS = ("POST", "PUT", "PATCH")
+BODY_METHODS = ("POST", "PUT", "PATCH", "PROPPATCH")
 # methods the statement is judged on: POST, PUT, DELETE + "other invalidating" = unsafe PATCH and a method of unknown safety
-JUDGED_METHODS = ("POST", "PUT", "DELETE", "PATCH", "FOO")
+# ... plus unsafe methods Squid knows by name (RFC 4918 MOVE/PROPPATCH/MKCOL: RFC 9111 section 4.4 covers every unsafe method)
+JUDGED_METHODS = ("POST", "PUT", "DELETE", "PATCH", "FOO", "MOVE", "PROPPATCH", "MKCOL")
 FORMS = ["absolute", "abs-path", "rel", "dot-rel", "net-path", "query-only", "abs-path-dots", "absolute-scheme-case"]
 
 
@@ -27,7 +28,7 @@ def strategy(tp):
         "u_query": st.sampled_from([None, None, None, "x=1", "p=/q/r"]),
         "v_place": st.sampled_from(["same-dir", "same-dir", "other-dir", "deeper", "parent", "same-path-other-query"]),
         "v_query": st.sampled_from([None, None, "k=2"]),
-        "method": st.sampled_from(["POST", "PUT", "DELETE", "PATCH", "FOO", "POST", "PUT", "DELETE", "LOCK"]),
+        "method": st.sampled_from(["POST", "PUT", "DELETE", "PATCH", "FOO", "POST", "PUT", "DELETE", "LOCK", "MOVE", "PROPPATCH", "MKCOL"]),
         "status": st.sampled_from([200, 200, 201, 201, 202, 204, 301, 302, 303, 307, 308, 400, 404, 409, 500, 503]),
         "location": loc,
         "content_location": loc,
